@@ -160,78 +160,80 @@ func C03(p *core.Program, r *core.Report) {
 	r.Stats["sibling_loops"] = nLoops
 	r.Floor("I1", 8)
 	// positive control: the converter's visitor is known to write NextSibling of the visited node
-	if ve := p.Func("(*" + core.ExpandKey(converterPkg) + ".DomConverter).visitElementNodeHandler"); ve != nil {
+	if ve, _ := walkHandlers(p, r, "I1"); ve != nil {
+		ve = p.Original(ve)
 		_, ok := a.ParamMods(ve, 1, true)["Node.NextSibling"]
 		r.Add("I1", "sanity: the element visitor may detach the visited node (writes its NextSibling)", p.Pos(ve.Pos()), ok, "javascript: anchors are replaced by their text node during the walk")
 	}
 
 	// ---- I2
-	if fd, pkg := p.FuncDecl("internal/domutil", "", "GetDisplayStyle"); fd == nil {
-		r.Undecided("I2", "anchor domutil.GetDisplayStyle", "not found")
-	} else {
-		var inline map[string]bool
-		for _, sw := range core.StringSwitches(pkg, fd.Body, nil) {
-			for _, cl := range sw.Clauses {
-				if len(cl.Body) == 1 {
-					if ret, ok := cl.Body[0].(*ast.ReturnStmt); ok && len(ret.Results) == 1 {
-						if s, ok := core.ConstStringOf(pkg, ret.Results[0]); ok && s == "inline" {
-							inline = map[string]bool{}
-							for _, l := range cl.Labels {
-								inline[l] = true
-							}
-						}
+	if gd := mustInl(p, r, "I2", domutilPkg+".GetDisplayStyle"); gd != nil {
+		paths, _, err := returnPaths(p, gd, 100000)
+		if err != nil {
+			r.Undecided("I2", "GetDisplayStyle", err.Error())
+		}
+		for _, t := range simpleInlineTags {
+			n, okT := 0, true
+			for _, pa := range consistentWith(paths, "dom.TagName($0)", t) {
+				if len(pa.Lits) > 0 && strings.HasPrefix(pa.Lits[0].Atom, "len(regexp.Regexp.FindStringSubmatch(domutil.rxDisplay,") && !pa.Lits[0].Val {
+					continue // an inline style decides
+				}
+				n++
+				if pa.Outcome != `return "inline"` {
+					okT = false
+				}
+			}
+			r.Add("I2", "display of <"+t+"> is inline", p.Pos(gd.Pos()), okT && n > 0, "tags with default display inline do not end a text block")
+		}
+	}
+	if ga := mustInl(p, r, "I2", "mod/internal/webdoc.GetActionForElement"); ga != nil {
+		act := "&new(webdoc.ElementAction)."
+		paths, _, err := core.EnumerateDecisions(p, ga, core.DecisionOpts{MaxPaths: 200000,
+			Outcome: func(in ssa.Instruction, c *core.Canon) (string, bool) {
+				if _, ok := in.(*ssa.Return); ok {
+					return "done", true
+				}
+				return "", false
+			},
+			Event: func(in ssa.Instruction, c *core.Canon) (string, bool) {
+				if st, ok := in.(*ssa.Store); ok {
+					if a := c.Of(st.Addr); strings.HasPrefix(a, act) {
+						return strings.TrimPrefix(a, act) + "=" + c.Of(st.Val), true
+					}
+				}
+				return "", false
+			}})
+		if err != nil {
+			r.Undecided("I2", "GetActionForElement", err.Error())
+		}
+		inlinePaths := consistentWith(paths, "domutil.GetDisplayStyle($0)", "inline")
+		for _, t := range simpleInlineTags {
+			n, okT, why := 0, true, "no flush, no tag-level change, no label"
+			for _, pa := range consistentWith(inlinePaths, "dom.TagName($0)", t) {
+				n++
+				for _, ev := range pathEvents(pa) {
+					switch {
+					case ev == "Flush=false" || ev == "ChangesTagLevel=false":
+					case ev == "ChangesTagLevel=true" && t == "a":
+					case strings.HasPrefix(ev, "IsAnchor=") && t == "a":
+					case strings.HasPrefix(ev, "Labels=") && strings.Contains(ev, "STRICTLY_NOT_CONTENT") && !strings.Contains(ev, "HEADING"):
+						// the comment-section rule (class/id), independent of the tag
+					default:
+						okT = false
+						why = "sets " + ev
 					}
 				}
 			}
-		}
-		if inline == nil {
-			r.Undecided("I2", "GetDisplayStyle inline clause", "no switch clause returning \"inline\"")
-		}
-		for _, t := range simpleInlineTags {
-			r.Add("I2", "display of <"+t+"> is inline", p.Pos(fd.Pos()), inline[t], "tags with default display inline do not end a text block")
-		}
-	}
-	if fd, pkg := p.FuncDecl("internal/webdoc", "", "GetActionForElement"); fd == nil {
-		r.Undecided("I2", "anchor webdoc.GetActionForElement", "not found")
-	} else {
-		ok, desc := false, "no switch on the display style"
-		for _, sw := range core.StringSwitches(pkg, fd.Body, nil) {
-			if cl := sw.ByLabel["inline"]; cl != nil {
-				ok = len(cl.Body) == 0
-				desc = fmt.Sprintf("clause %v has %d statements", cl.Labels, len(cl.Body))
-			}
-		}
-		r.Add("I2", "inline display neither flushes nor changes the tag level", p.Pos(fd.Pos()), ok, desc)
-		// the tag switch: none of the simple inline tags gets a label, only <a> is special
-		for _, sw := range core.StringSwitches(pkg, fd.Body, nil) {
-			if sw.ByLabel["h1"] == nil {
-				continue
-			}
-			for _, t := range simpleInlineTags {
-				cl := sw.ByLabel[t]
-				okT := cl == nil
-				why := "no special action"
-				if cl != nil {
-					// allowed: the anchor clause that only sets ChangesTagLevel / IsAnchor
-					src := nodeText(p, cl.Clause)
-					okT = t == "a" && !strings.Contains(src, "Flush") && !strings.Contains(src, "Labels")
-					why = "clause: " + strings.Join(strings.Fields(src), " ")
-				}
-				r.Add("I2", "element action of <"+t+"> does not flush or label", p.Pos(fd.Pos()), okT, why)
-			}
+			r.Add("I2", "element action of inline <"+t+"> does not flush or label", p.Pos(ga.Pos()), okT && n > 0, fmt.Sprintf("%d paths; %s", n, why))
 		}
 	}
 	if tbl := converterSwitch(p, r, "I2"); tbl != nil {
+		ref := tbl.For("zz-no-such-tag")
 		for _, t := range simpleInlineTags {
-			cl := tbl.ByLabel[t]
-			switch {
-			case cl == nil:
-				r.Add("I2", "converter walks <"+t+"> like any element", tbl.Pos, tbl.AfterSwitchStart, "falls through to StartNode + return true")
-			case t == "font":
-				okF := cl.AlwaysReturnsTrue && cl.Calls["StartNode"]
-				r.Add("I2", "converter keeps <font> (renamed to an inline tag)", tbl.Pos, okF, cl.Describe())
-			default:
-				r.Add("I2", "converter drops <"+t+"> only conditionally", tbl.Pos, !cl.AlwaysReturnsFalse && !cl.Calls["SkipNode"], cl.Describe())
+			cl := tbl.For(t)
+			r.Add("I2", "converter walks into <"+t+"> (never drops it for its tag alone)", tbl.Pos, cl.SomeReturnTrue && cl.Calls["StartNode"], cl.Describe())
+			if t != "a" && t != "font" && t != "span" {
+				r.Add("I2", "converter treats <"+t+"> like any element without a special case", tbl.Pos, cl.Sig == ref.Sig, "behaviour compared with that for an unknown tag name")
 			}
 		}
 	}
@@ -239,7 +241,7 @@ func C03(p *core.Program, r *core.Report) {
 	checkFlushWriters(p, r)
 
 	// ---- I3
-	am := mustFunc(p, r, "I3", "(*mod/internal/webdoc.TextBlock).ApplyToModel")
+	am := mustInl(p, r, "I3", "(*mod/internal/webdoc.TextBlock).ApplyToModel")
 	if am != nil {
 		hs := loopHeaders(am)
 		if len(hs) != 1 {
@@ -289,22 +291,37 @@ func nodeText(p *core.Program, n ast.Node) string {
 // StartNode (from the element action).
 func checkFlushWriters(p *core.Program, r *core.Report) {
 	c := core.NewCanon(p)
+	// the flush flag: the boolean field of the builder that AddTextNode tests first
+	flag := ""
+	if at := mustInl(p, r, "I2", "(*mod/internal/webdoc.WebDocumentBuilder).AddTextNode"); at != nil {
+		for _, b := range at.Blocks {
+			if ifi, ok := b.Instrs[len(b.Instrs)-1].(*ssa.If); ok {
+				a, _ := c.CondAtom(ifi.Cond)
+				if strings.HasPrefix(a, "$0.‹bool") {
+					flag = a
+				}
+				break
+			}
+		}
+	}
+	if flag == "" {
+		r.Undecided("I2", "the builder's flush flag", "AddTextNode does not start with a test of a boolean field of the builder")
+		return
+	}
 	writers := map[string]bool{}
 	for _, fn := range p.ModFunctions(false) {
-		if !strings.Contains(fn.String(), "webdoc.WebDocumentBuilder)") {
+		if !strings.Contains(fn.String(), "webdoc.WebDocumentBuilder)") || !ast.IsExported(fn.Name()) {
 			continue
 		}
-		for _, b := range fn.Blocks {
-			for _, in := range b.Instrs {
-				st, ok := in.(*ssa.Store)
-				if !ok || c.Of(st.Addr) != "&$0.flush" {
-					continue
-				}
-				if bv, isC := core.ConstBool(st.Val); isC && !bv {
-					continue
-				}
-				writers[fn.Name()] = true
+		for _, in := range instrsOf(p.Inlined(fn)) {
+			st, ok := in.(*ssa.Store)
+			if !ok || c.Of(st.Addr) != "&"+flag {
+				continue
 			}
+			if bv, isC := core.ConstBool(st.Val); isC && !bv {
+				continue
+			}
+			writers[fn.Name()] = true
 		}
 	}
 	var ws []string
@@ -313,5 +330,5 @@ func checkFlushWriters(p *core.Program, r *core.Report) {
 	}
 	sort.Strings(ws)
 	r.Add("I2", "the text builder is flushed only by skipped or block-level elements", "", sameSet(ws, []string{"SkipNode", "StartNode"}),
-		fmt.Sprintf("functions that can raise WebDocumentBuilder.flush: %v (documented: SkipNode, StartNode)", ws))
+		fmt.Sprintf("builder methods that can raise the flush flag %s: %v (documented: SkipNode, StartNode)", flag, ws))
 }
